@@ -197,6 +197,7 @@ Variables (g : cfg) (U : list Z).
 Variable l : lin.
 Variable w : Z -> Z -> Z.
 Variables gd ge : ghost -> Z.
+Variables kM kU : Z.   (* how a refund's value shows in l: at the mint (kM) or at the unlock (kU); kM + kU = 1 *)
 
 Definition wp (p : ptx) : Z := w (p_chain p) (p_tok p) * (p_amt p + p_fee p).
 Definition wtot (ps : list ptx) : Z := sumZ (map wp ps).
@@ -329,8 +330,9 @@ Record blocks : Prop := {
   B_cdt : forall tk a src tg x, fromcfg tk -> In a U -> dB (convert_denom_to_target tk a src tg x) 0;
   B_cd : forall tk a b src tg x, fromcfg tk -> In a U -> In b U -> dB (msg_convert_denom tk a b src tg x) 0;
   B_fee : forall tk c a x, fromcfg tk -> In a U -> dB (add_bridge_fee_prog tk c a x) (- (w c (t_id tk) * x));
-  B_rmint : forall tk c x, fromcfg tk -> dB (refund_mint c tk x) 0;
-  B_runlock : forall tk c a x, fromcfg tk -> In a U -> dB (refund_unlock c a tk x) (w c (t_id tk) * x);
+  B_k : kM + kU = 1;
+  B_rmint : forall tk c x, fromcfg tk -> dB (refund_mint c tk x) (kM * (w c (t_id tk) * x));
+  B_runlock : forall tk c a x, fromcfg tk -> In a U -> dB (refund_unlock c a tk x) (kU * (w c (t_id tk) * x));
   B_hot : forall a x, In a U -> dB (handler_origin_token a x) 0;
   B_het : forall tk a x, fromcfg tk -> In a U -> dB (handler_erc20_token tk a x) 0;
   B_send : forall a b d x, In a U -> In b U -> dB (send a b d x) 0;
@@ -480,14 +482,14 @@ Proof.
   intros Ha Hpos. unfold bridge_call_refund_prog.
   eapply dB_eq.
   - apply dB_app; [|apply dB_app; [|apply dB_app]].
-    + apply (dB_each (refund_mint c) 0 c). intros tk x Htk. eapply dB_eq; [apply (B_rmint HB); assumption|lia].
-    + apply (dB_each (refund_unlock c a) 1 c). intros tk x Htk. eapply dB_eq; [apply (B_runlock HB); assumption|lia].
+    + apply (dB_each (refund_mint c) kM c). intros tk x Htk. apply (B_rmint HB); assumption.
+    + apply (dB_each (refund_unlock c a) kU c). intros tk x Htk. apply (B_runlock HB); assumption.
     + apply (dB_each (refund_to_base c a) 0 c). intros tk x Htk. unfold refund_to_base.
       eapply dB_eq; [apply (B_cdt HB); assumption|lia].
     + instantiate (1 := 0). destruct fm; [apply dB_nil|].
       eapply dB_eq; [apply (dB_each (refund_to_evm a) 0 c)|lia]. intros tk x Htk. unfold refund_to_evm.
       destruct (is_fx tk); [eapply dB_eq; [apply dB_nil|lia]|]. eapply dB_eq; [apply (B_cc HB); assumption|lia].
-  - rewrite wamt_pos by assumption. lia.
+  - rewrite wamt_pos by assumption. pose proof (B_k HB). nia.
 Qed.
 
 Lemma refund_spec b : forall s s', recs_wf (sr s) -> In b (calls (sr s)) ->
@@ -733,3 +735,18 @@ Proof.
 Qed.
 
 End GEN.
+
+(* ------------------------------------------------------------------------------------------------ *)
+(** * Tactics for instantiating [blocks] *)
+
+Ltac blk_unfold :=
+  unfold base_to_bridge_token, bridge_token_to_base, deposit_bridge_token, withdraw_bridge_token, conversion_coin,
+         convert_coin, convert_erc20, msg_convert_denom, convert_denom_to_target, add_bridge_fee_prog, refund_mint, refund_unlock,
+         handler_origin_token, handler_erc20_token, ibc_to_base, base_to_ibc, converted_rep, old_target, denom_rep,
+         origin_or_converted, on_chain, is_fx.
+Ltac den_unfold := unfold alias_of, base_of, ibc_of, cacc, chain_ok, FX, A_ERC20, A_IBC, A_WFX, A_EVM, A_PRE in *.
+Ltac split_leb := repeat match goal with |- context [Z.leb ?x ?y] => destruct (Z.leb_spec x y) end; cbn [andb orb negb].
+Ltac split_eqb := repeat match goal with |- context [Z.eqb ?x ?y] => destruct (Z.eqb_spec x y) end; cbn [andb orb negb].
+Ltac split_if := repeat match goal with |- context [if ?b then _ else _] => destruct b eqn:? end.
+Ltac pd_cbn := cbn [pdelta app send mint burn erc20_mint erc20_burn erc20_transfer]; rewrite ?pdelta_app;
+               cbn [pdelta app send mint burn erc20_mint erc20_burn erc20_transfer].
